@@ -8,4 +8,5 @@ Extraction "c05_model.ml"
   k_lin k_poly k_mono k_gauss k_ard k_disc k_scaled k_wsum k_prod k_norm k_pull k_sub k_pset feat_dist
   mk single_via_batch b_lin b_poly b_mono b_gauss b_ard b_disc b_scaled b_wsum b_prod b_norm b_pull b_sub
   gram_reg gram linmap
-  g_lin g_poly g_mono g_gauss g_ard g_scaled g_wsum g_sub wid p_poly p_gauss wpd wsumk.
+  g_lin g_poly g_mono g_gauss g_ard g_scaled g_wsum g_sub wid p_poly p_gauss wpd wsumk
+  p_one p_none p_ard g_norm p_norm p_wsum p_sub p_model lm_pgrad wpdv.
